@@ -54,10 +54,10 @@ def run(ctx, rep):
     rep.not_decided = "that rename_all case conversion of variant identifiers equals serde's (C16)."
     rep.trusted = ['syn', 'astq evaluator', 'serde_derive source named by Cargo.lock (symbol table)', 'facet table from the property text']
     T = emit.Types(ctx.astq)
-    pr.all_attrs_rule(ctx, rep, 'VA', ('get_ident', 'serde_rename_all', 'get_tag_key', 'get_content_key'), 6)
-    v1(ctx, rep, T)
-    v2(ctx, rep)
-    printers(ctx, rep, T)
+    rep.section(pr.all_attrs_rule, ctx, rep, 'VA', ('get_ident', 'serde_rename_all', 'get_tag_key', 'get_content_key'), 6, keys=('rename', 'rename_all', 'tag', 'content'))
+    rep.section(v1, ctx, rep, T)
+    rep.section(v2, ctx, rep)
+    rep.section(printers, ctx, rep, T)
 
 
 def v1(ctx, rep, T):
@@ -82,31 +82,59 @@ def v1(ctx, rep, T):
                 names = [p['name'] for p in pev['params']]
                 if rule_param in names:
                     passed = c['args'][names.index(rule_param)]
-        pv = passed
-        while isinstance(pv, dict) and pv.get('k') == 'var':
-            pv = pv['v']
         eparam = pe['params'][0]['name']
-        ok2 = isinstance(pv, dict) and pv.get('f') == 'serde_rename_all' and vt.show(vt.strip(pv['args'][0])) == f'{eparam}.attrs'
-        rep.check(rule_param is not None and ok2, 'V1', 'variant-id:enum-rule', "variant names use the enum's rename_all", f"variant id uses rename rule `{vt.show(idv['args'][2])[:60]}` ← parse_enum passes `{vt.show(passed)[:80]}`; serde renames variants with the enum-level rename_all", site)
+        ok2, why2 = lookup_of(ctx, passed, eparam, 'rename_all')
+        rep.check(rule_param is not None and ok2, 'V1', 'variant-id:enum-rule', "variant names use the enum's rename_all", f"variant id uses rename rule `{vt.show(idv['args'][2])[:60]}` ← parse_enum passes `{vt.show(passed)[:80]}` ({why2}); serde renames variants with the enum-level rename_all", site)
     else:
         rep.fail('V1', 'variant-id', f'variant id is not get_ident(..): {vt.show(idv)[:100]}', site)
     # tag / content
     pe = ctx.fn('parse_enum', file='parser.rs')
-    for helper, want in (('get_tag_key', 'tag'), ('get_content_key', 'content')):
-        closed, open_ = pr.lookup_closed(ctx, helper)
-        rep.check(closed == {('SERDE', want, 'NameValue')} and not open_, 'V1', f'{helper}:name', f'{want} = ".." under serde', f'{helper} looks for {sorted(closed)} {sorted(map(str, open_))} — expected the name-value argument `{want}` of #[serde(..)] only', {'file': pe['file'], 'line': ctx.fn(helper, file="parser.rs")['line']})
     alg = [c for c in pe['structs'] if c['path'] == 'RustEnum::Algebraic']
     rep.floor('V1', 'RustEnum::Algebraic construction', len(alg), 1)
-    for fld, helper in (('tag_key', 'get_tag_key'), ('content_key', 'get_content_key')):
+    eparam = pe['params'][0]['name']
+    for fld, want, other in (('tag_key', 'tag', 'content'), ('content_key', 'content', 'tag')):
         v = alg[0]['v']['fields'].get(fld)
-        txt = json.dumps(v)
-        ok = f'"f": "{helper}"' in txt and f'"root": "{pe["params"][0]["name"]}"' in txt and '"attrs"' in txt
-        other = 'get_content_key' if helper == 'get_tag_key' else 'get_tag_key'
-        ok = ok and f'"f": "{other}"' not in txt
-        rep.check(ok, 'V1', f'algebraic:{fld}', f'{fld} = {helper}(enum.attrs)', f'parse_enum: RustEnum::Algebraic.{fld} is `{vt.show(v)[:100]}` — expected {helper}(&e.attrs)', {'file': pe['file'], 'line': alg[0]['line']})
+        ok, why = lookup_of(ctx, v, eparam, want, exclude=other)
+        rep.check(ok, 'V1', f'algebraic:{fld}', f'{fld} = the `{want}` argument of #[serde(..)] on the enum', f'parse_enum: RustEnum::Algebraic.{fld} is `{vt.show(v)[:100]}` — expected the name-value argument `{want}` of the enum\'s own #[serde(..)] attributes ({why})', {'file': pe['file'], 'line': alg[0]['line']})
     cs = [c for c in ctx.fn('const_items_dummy', file='x') if False] if False else None
     const = [i for i in ctx.items('const', 'SERDE', 'parser.rs')]
     rep.check(bool(const) and const[0].get('strings') == ['serde'], 'V1', 'const:SERDE', 'SERDE = "serde"', f"const SERDE is {const[0].get('strings') if const else 'missing'}", {'file': 'core/src/parser.rs', 'line': const[0]['line'] if const else 0})
+
+
+def lookup_of(ctx, v, owner_param, want, exclude=None):
+    """Does value tree `v` derive from an attribute look-up of the serde name-value argument `want` on `<owner_param>.attrs`?
+    The look-up is any parser.rs function (identified by its look-up summary, not by its name) called with the owner's
+    attribute list: a single-key look-up must be exactly (SERDE, want, NameValue); a look-up that reads several keys at once
+    and returns them as a struct is accepted when the projected field carries the key's name.  `exclude`: a look-up of that
+    other key must not be what feeds the value (swapped tag/content)."""
+    found, seen = False, []
+    for x in vt.walk(v):
+        base = x
+        fieldname = None
+        if x.get('k') == 'field' and isinstance(vt.unvar(x.get('base')), dict):
+            base, fieldname = vt.unvar(x['base']), x.get('name')
+        if base.get('k') != 'call' or base.get('recv') is not None:
+            continue
+        args = [vt.strip(a) for a in base.get('args', [])]
+        if not any(isinstance(a, dict) and a.get('k') == 'atom' and a.get('root') == owner_param and a.get('path') == ['attrs'] for a in args):
+            continue
+        closed, open_ = pr.lookup_closed(ctx, base.get('f'))
+        if not closed:
+            continue
+        seen.append((base.get('f'), sorted(closed)))
+        keys = {nm for ns, nm, kd in closed if ns == 'SERDE' and kd == 'NameValue'}
+        if open_ or any(ns != 'SERDE' or kd != 'NameValue' for ns, nm, kd in closed):
+            continue
+        if keys == {want} and x is base:
+            found = True
+        elif want in keys and len(keys) > 1 and fieldname is not None:
+            # multi-key helper: the projected field must be the one named after the key
+            norm = lambda t: re.sub(r'[^a-z]', '', str(t).lower())
+            if norm(want) in norm(fieldname) and not (exclude and norm(exclude) in norm(fieldname)):
+                found = True
+    if found:
+        return True, ''
+    return False, 'look-ups seen on the way: ' + (str(seen)[:160] if seen else 'none on the owner\'s attrs')
 
 
 def v2(ctx, rep):
